@@ -11,7 +11,7 @@ Ltac destruct_len c H :=
   repeat (destruct c as [|? c]; cbn [length] in H; try discriminate H); clear H.
 
 Ltac rn_core n :=
-  refine (mkCore _ (rn_valid n) homn _ _ _ _ _ _ _ _ _ _ _);
+  refine (mkCore _ (rn_valid n) homn (fun _ => homn) _ _ _ _ _ _ _ _ _ _ _);
   cbn [g_compose g_inverse g_transform g_act g_tra g_actdim Rn]; unfold rn_valid, g_identity; cbn [g_exp g_dof Rn];
   unfold rn_compose, rn_inverse, rn_transform, rn_act, rn_exp, t_zero, homn; cbn [g_dof Rn];
   [ intros X Y HX HY; destruct_len X HX; destruct_len Y HY; reflexivity
